@@ -17,6 +17,7 @@ fn scheme() -> &'static Scheme {
         b.add_field("s", wirefilter::Type::Bytes).unwrap();
         b.add_field("ai", wirefilter::Type::Array(wirefilter::Type::Int.into())).unwrap();
         b.add_field("mi", wirefilter::Type::Map(wirefilter::Type::Int.into())).unwrap();
+        b.add_field("ip", wirefilter::Type::Ip).unwrap();
         b.build()
     })
 }
@@ -31,6 +32,8 @@ pub fn observe_lit(kind: &str, text: &str) -> Value {
         "int" => format!("i == {text}"),
         "bytes" => format!("s == {text}"),
         "index" => format!("ai[{text}] == 1"),
+        "ipeq" => format!("ip == {text}"),
+        "ipitem" => format!("ip in {{{text}}}"),
         _ => format!("mi[{text}] == 1"),
     };
     let r = catch_unwind(AssertUnwindSafe(|| scheme().parse(&src).map(|a| serde_json::to_value(&a).unwrap())));
@@ -46,6 +49,7 @@ pub fn observe_lit(kind: &str, text: &str) -> Value {
                     _ => json!("?"),
                 },
                 "index" => j["lhs"][1]["value"].as_i64().map(|x| json!(limbs(x))).unwrap_or(json!("?")),
+                "ipeq" | "ipitem" => ip_item_obs(if kind == "ipeq" { &j["rhs"] } else { &j["rhs"][0] }),
                 _ => j["lhs"][1]["value"].as_str().map(|s| json!(s.as_bytes())).unwrap_or(json!("?")),
             };
             json!({"out": "ok", "v": v})
@@ -53,9 +57,41 @@ pub fn observe_lit(kind: &str, text: &str) -> Value {
     }
 }
 
+/// an IP rhs (address / block / range) as {a, b, len}; see spec/WfLit.tla
+fn ip_item_obs(v: &Value) -> Value {
+    use std::net::IpAddr;
+    use std::str::FromStr;
+    let oct = |s: &str| IpAddr::from_str(s).ok().map(|ip| ip_octets(&ip));
+    match v {
+        Value::String(s) => {
+            if let Some(o) = oct(s) {
+                return json!({"a": o, "b": o, "len": o.len() * 8});
+            }
+            if let Some((a, l)) = s.split_once('/') {
+                if let (Some(o), Ok(len)) = (oct(a), l.parse::<u32>()) {
+                    return json!({"a": o, "b": o, "len": len});
+                }
+            }
+            json!({"a": [], "b": [], "len": 999})
+        }
+        Value::Object(o) => match (o.get("start").and_then(|x| x.as_str()).and_then(oct), o.get("end").and_then(|x| x.as_str()).and_then(oct)) {
+            (Some(a), Some(b)) => json!({"a": a, "b": b, "len": 0}),
+            _ => json!({"a": [], "b": [], "len": 998}),
+        },
+        _ => json!({"a": [], "b": [], "len": 997}),
+    }
+}
+
 pub fn judge(v: &Value, o: &Value) -> Vec<String> {
     let mut d = Vec::new();
-    let exp_ok = v["exp"]["ok"].as_bool().unwrap();
+    if v["exp"]["ok"] == "unspec" {
+        // a form the documentation does not define (short IPv4): only a panic is a finding
+        if o["out"] == "panic" {
+            d.push("parser panicked".into());
+        }
+        return d;
+    }
+    let exp_ok = v["exp"]["ok"].as_bool().unwrap_or(v["exp"]["ok"] == "yes");
     match o["out"].as_str().unwrap() {
         "panic" => d.push("parser panicked".into()),
         "ok" => {
@@ -106,6 +142,29 @@ pub fn gen_lit(r: &mut StdRng, id: u64) -> Value {
             let b = gen_bytes(r);
             ("key", quoted_text(r, &b))
         }
+        6 => {
+            // addresses, blocks (every prefix length; with host bits), ranges (ordered, reversed, mixed family)
+            let a = gen_ip(r);
+            let tok = match r.random_range(0..7) {
+                0 | 1 => ip_tok(r, &a),
+                2 | 3 => cidr_tok(r, &a),
+                4 => cidr_tok_hostbits(r, &a),
+                5 => {
+                    let b = gen_ip(r);
+                    iprange_tok(r, &a, &b).unwrap_or_else(|| ip_tok(r, &a))
+                }
+                _ => {
+                    let b = gen_ip(r);
+                    iprange_tok_bad(r, &a, &b).unwrap_or_else(|| ip_tok(r, &a))
+                }
+            };
+            let is_addr = matches!(tok, Tok::Ip { .. });
+            let txt = match tok {
+                Tok::Ip { txt, .. } | Tok::Cidr { txt, .. } | Tok::Iprange { txt, .. } => txt,
+                _ => unreachable!(),
+            };
+            (if is_addr && r.random_range(0..2) == 0 { "ipeq" } else { "ipitem" }, txt)
+        }
         _ => {
             let b = gen_bytes(r);
             let t = match r.random_range(0..3) {
@@ -137,6 +196,9 @@ pub fn gen_lit(r: &mut StdRng, id: u64) -> Value {
     // keep texts free of white space and of characters that could continue the filter
     if text.contains(' ') || text.contains('\n') || text.contains('\r') {
         text = text.replace([' ', '\n', '\r'], "_");
+    }
+    if text.is_empty() && kind.starts_with("ip") {
+        text = ":".into();
     }
     let o = observe_lit(kind, &text);
     json!({"ev": "lit", "id": id, "kind": kind, "chars": cps(&text), "text": text, "obs": o})
